@@ -99,6 +99,17 @@ def idless_states():
                 stories = [gen.simple_story(n, 2, inter=True, timed=timed) for n in ('A', 'B', 'C')]
                 stories.insert(pos, B.clone(odd))
                 out.append(B.ro_doc('RO', 1, stories, ed_start='2020-01-01T12:30:00'))
+    # two stories without an ID, and story IDs that occur twice (left by an append / replace that re-used an ID)
+    for names in (['A', None, 'B', None], ['A', 'X', 'B', 'X'], ['X', 'X'], [None, None]):
+        for timed in (True, False):
+            stories = []
+            for k, n in enumerate(names):
+                st = gen.simple_story(n or 'tmp', 2, item_prefix='q%d.' % k, inter=True, timed=timed)
+                if n is None:
+                    st.remove(st.find('storyID'))
+                st.append(E('p', 'paragraph of story number %d' % k))
+                stories.append(st)
+            out.append(B.ro_doc('RO', 1, stories, ed_start='2020-01-01T12:30:00'))
     for odd in (E('item', None, E('itemSlug', 'no id here')), E('item')):
         for pos in (0, 2):
             st = gen.simple_story('A', 3, item_prefix='a', inter=True)
@@ -197,6 +208,32 @@ def many_unresolvable(s, counts=(11, 12, 13, 25, 60)):
                 if s.mine(idx):
                     run_case(s, ro_txt, kind, kw, ctx={'many': n})
                     s.hist['many_unresolvable'] += 1
+
+
+def reuse_objects(s, kinds, n):
+    """One message object added to two (fresh, identical) running orders one after the other, then a freshly
+    parsed copy to a third: every one of the three adds is judged on its own by the transition relation."""
+    for i in range(n):
+        if not s.mine(i):
+            continue
+        rng = s.rng('reuse', i)
+        pool = gen.text_pool('plain')
+        kind = kinds[i % len(kinds)]
+        ro_txt = gen.rand_ro(rng, n_stories=rng.randint(2, 5), pool=pool, rich=False)
+        msg_txt = gen.rand_message(rng, Abs(ro_txt), kind, 40, gen.Ids('U%d.' % i), pool=pool, rich=False,
+                                   shape_weights=(0.92, 0.04, 0.04, 0.0), selfref=0.03)
+        try:
+            m = s.load(msg_txt)
+        except Exception:
+            continue
+        for k in range(2):
+            ro = s.load(ro_txt)
+            s.add(ro, m)
+            s.drain_and_judge(None, {'reuse': i, 'use': k + 1})
+        ro = s.load(ro_txt)
+        s.add(ro, s.load(msg_txt))
+        s.drain_and_judge(None, {'reuse': i, 'use': 'fresh'})
+        s.hist['reuse_objects'] += 1
 
 
 def weighted_kinds(rng, weights):
